@@ -1991,8 +1991,7 @@ class Stream(AbstractStream):
         new._thermo = self._thermo
         new._imol = self._imol
         new._thermal_condition = self._thermal_condition
-        new._property_cache = self._property_cache
-        new._property_cache_key = self._property_cache_key
+        new.reset_cache()
         new.equations = self.equations
         new.characterization_factors = self.characterization_factors
         return new
